@@ -408,7 +408,12 @@ def judge_continuation(recline, contres):
     if ff.get("exit") != "0" or ff.get("rc") != "0":
         return "the open after the cleanly closed second session fails: %s" % contres["final"][:120]
     final, probs = W.canon_dump(ff.get("dump", ""))
-    want = (shown if shown != "empty" else "") + SESSION2_DB3
+    import re
+    parts = re.findall(r"db\d+\{[^}]*\}", shown if shown != "empty" else "")
+    if "".join(parts) != (shown if shown != "empty" else ""):
+        parts = [shown]                      # not of the regular shape: compare as before
+    # databases are dumped in the order of their ids; database 3 is the second session's
+    want = "".join(sorted(parts + [SESSION2_DB3], key=lambda x: int(re.match(r"db(\d+)", x).group(1)) if re.match(r"db(\d+)", x) else 0))
     if probs:
         return "scan after the second session is malformed: %s" % ",".join(probs)
     if final != want:
